@@ -52,6 +52,7 @@ var c19Pool = []string{
 	`strict $.a`, `strict $.nokey`, `strict $.a[5]`, `strict $.list[*].x`, `strict $.list[*] ? (@.x > 1)`, `strict exists($.a)`, `strict $.a.size() == 3`, `strict -$.s`, `strict $.a[0 to last].type()`,
 	`$.aa[0 to 1][*]`, `$.aa[0,2][*]`, `$.aa[0,1][*]`, `$.aa[2,0][*]`, `$.aa[*][*]`, `$.aa[*][0 to last]`, `$.aa[last][*]`, `$.aa[0,1,0][*]`, `$.**[*]`, `$.aa[*] ? (@.size() > 1)[*]`,
 	`$."\u0061"`, `$.a\u0061[0]`, `$.s == "\u0061bc\u{31}"`, `$.list[*] ? (@.y starts with "\u0041\u0062")`, `"\ud83d\ude04\u00e9\u4e2d".size()`, `$"\u0076" + $.\u0069`, `$.s like_regex "^\u0061.c"`,
+	`$obj.keyvalue()`, `$obj.keyvalue().id`, `$arr[2].keyvalue().id`, `$[*] ? (@ == 1 || @ == 2)`,
 	`$.kv.keyvalue().value.double()`, `$.kv.keyvalue() ? (@.value.double() > 1).key`, `$ ? (exists(@.kv.keyvalue().value.double()))`, `strict $.kv.keyvalue().value.integer()`,
 	`strict $.big[*].x`, `strict $.big[*].x ? (@ > 100)`, `strict $.big[0 to 7].x ? (@ > 100)`, `strict $.a[*] ? (@ > 100)`, `strict $.big[*].x.double()`, `$.big[*].x ? (@ > 6)`, `$vf + $vi`, `$vn.string()`, `$arr[0] + $vn`,
 	`$.i == 1`, `$.a[*] > 1`, `exists($.a ? (@ > 2))`, `($.i == "x") is unknown`, `$.i == 1 && $.f > 1`, `!($.s == "x")`, `$.x.y.z`, `$.a.b.c`, `$.a[*].foo`, `$.list[1 to last].x`, `$.list[*].t.date().string()`,
@@ -80,6 +81,8 @@ func (in c19Input) key() string {
 
 var c19Entries = []string{"query", "first", "exists", "match", "existsormatch", "string"}
 
+var c19BaseVars map[string]any
+
 var c19Zone = time.FixedZone("+05:30", 5*3600+1800)
 
 // c19Exec runs one input on the given paths and returns the result fingerprint.
@@ -90,6 +93,11 @@ func c19Exec(paths []*path.Path, docs []any, vars map[string]any, in c19Input, e
 	}
 	m := h.NewMon()
 	m.YieldEvery = yieldEvery
+	if c19BaseVars != nil && strings.Contains(c19Pool[in.pi], ".keyvalue()") && c19Pool[in.pi][0] == '$' && c19Pool[in.pi][1] != '.' && c19Pool[in.pi][1] != ' ' {
+		// ids of objects reached through a variable are relative to the
+		// variables map: comparable only between calls given the same map
+		vars = c19BaseVars
+	}
 	o := h.CallMonitored(in.entry, p, docs[in.di], h.Opts{Vars: vars, Silent: in.silent, TZ: in.tz, Zone: c19Zone}, m)
 	fp := o.Class
 	if len(o.Faults) > 0 {
@@ -165,6 +173,7 @@ func runC19(c *h.Ctx) {
 	}
 	varsFP := h.CanonTyped(newVars()) // of a map no call has seen
 	vars := newVars()                 // baseline and sequential phases
+	c19BaseVars = vars
 
 	// Which pool paths expose member order? (computed from separately parsed copies)
 	basePaths, exposed := parsePool()
